@@ -32,7 +32,8 @@ func init() {
 			case *ast.IndexExpr:
 				if _, isMap := info.TypeOf(x.X).Underlying().(*types.Map); isMap {
 					nIdx++
-					if id, ok := unparen(x.Index).(*ast.Ident); !ok || info.ObjectOf(id) != param {
+					// the name parameter, directly or through a single-definition local (`key := name`)
+					if id, ok := defs.resolve1(info, x.Index).(*ast.Ident); !ok || info.ObjectOf(id) != param {
 						badKey = c.src(x.Index)
 					}
 				}
